@@ -885,6 +885,7 @@ Proof.
     set (s1 := step_or g s _). assert (R1 : reachable g s1) by (apply step_or_reachable; exact R).
     destruct (pcs s1 _) as [[| | | |]|]; try (apply settle_reachable; exact R1).
     apply settle_reachable. apply advance_reachable. exact R1.
-  - apply settle_reachable. apply (fold_step_or_reachable g LTimeout). exact R.
+  - destruct (split_colon op []) as [|x0 [|x1 [|x2 x3]]]; apply settle_reachable;
+      try (apply (fold_step_or_reachable g LTimeout); exact R); apply step_or_reachable; exact R.
   - apply settle_reachable. apply close_all_idle_reachable. exact R.
 Qed.
